@@ -337,16 +337,16 @@ def plan(tier, seed):
     specs = []
     nsh = 4 if tier == "quick" else 16
     for i in range(nsh):
-        specs.append({"mode": "enc", "seed": f"{seed}:C17:enc:{i}", "shards": nsh, "shard": i, "n": 300 if tier == "quick" else 2000,
+        specs.append({"mode": "enc", "seed": f"{seed}:C17:enc:{i}", "shards": nsh, "shard": i, "n": 300 if tier == "quick" else 6000,
                       "full": tier != "quick"})
     specs.append({"mode": "dtpair", "seed": f"{seed}:C17:dtpair", "n": 20 if tier == "quick" else 200})
-    per = 10 if tier == "quick" else 120
+    per = 10 if tier == "quick" else 300
     for fam, port, variant in (("ET", 8899, "v2"), ("ET", 502, "v2"), ("ET", 8899, "v1"), ("ET", 502, "v1"), ("DT", 8899, "v2"),
                                ("DT", 502, "v2"), ("ES", 8899, "v1"), ("ES", 8899, "v2")):
-        for k in range(2 if tier == "quick" else 4):
+        for k in range(2 if tier == "quick" else 8):
             specs.append({"mode": "e2e", "seed": f"{seed}:C17:e2e:{fam}:{port}:{variant}:{k}", "family": fam, "port": port,
-                          "variant": variant, "n": 40, "per_setting": per if k != 1 else max(3, per // 3), "slow": k == 1,
-                          "tag": {"ET": ["ETU", "ETT", "EHU", "BTU"], "DT": ["DTU", "DSN", "MSU", "DTS"], "ES": ["ESU"] * 4}[fam][k]})
+                          "variant": variant, "n": 40, "per_setting": per if k % 4 != 1 else max(3, per // 3), "slow": k % 4 == 1,
+                          "tag": {"ET": ["ETU", "ETT", "EHU", "BTU"], "DT": ["DTU", "DSN", "MSU", "DTS"], "ES": ["ESU"] * 4}[fam][k % 4]})
     return specs
 
 
